@@ -123,6 +123,7 @@ type Result struct {
 	RangeExceeded      bool // an intermediate value left the 16.16 range
 	UsedMaskOps        bool
 	MaskBeforeStemOp   bool
+	Seac               *[4]Fix // adx ady bchar achar of an endchar in the deprecated seac form
 }
 
 // Has reports whether a violation of the class was recorded.
@@ -610,7 +611,13 @@ func (m *machine) exec(code []byte, depth int) {
 
 		case "endchar":
 			m.takeWidth(n == 1 || n == 5)
-			m.count(name, len(m.stack) == 0)
+			if len(m.stack) == 4 {
+				// TN5177 appendix C: "adx ady bchar achar endchar" (the seac form, deprecated)
+				r.Seac = &[4]Fix{m.stack[0], m.stack[1], m.stack[2], m.stack[3]}
+				m.viol(VDeprecatedOp, "endchar with four operands (seac form)")
+			} else {
+				m.count(name, len(m.stack) == 0)
+			}
 			r.Ended = true
 			m.stop = true
 			if depth == 0 && i < len(code) {
